@@ -104,6 +104,7 @@ func (m *model) newDoc() {
 // openedFrom: the document object is replaced by one opened from a package observed as o.
 func (m *model) openedFrom(o *obs, fresh bool) {
 	m.saved, m.opened = true, true
+	m.removed = map[string]bool{} // the registry of an opened document is the predefined set again
 	m.reg = map[string]string{}
 	m.preStyles = map[string]bool{}
 	if o != nil {
